@@ -184,8 +184,8 @@ class GLit:
         # (and its serialization then shows the order on the wire)
         by_name = {refmap.norm_ident(f["name"]): f for f in s["fields"]}
         fields = []
-        for m, x in zip(flat_members(comp), vals):
-            f = by_name[m["name"].snake]
+        for k, (m, x) in enumerate(zip(flat_members(comp), vals)):
+            f = s["fields"][k] if e.get("shape_ok") else by_name[m["name"].snake]
             fields.append(f"{f['name']}: {RefEmit._wrapped(m, x, self.literal)}")
         return f"{refmap.rust_path(s)} {{ {', '.join(fields)} }}"
 
